@@ -178,6 +178,18 @@ func (w *World) observe(st *Step, pre map[*half]halfSnap) {
 		}
 	}
 
+	/* ---- C01: an attempt made during shutdown is ended at once: nobody
+	is told about it, so it has nothing to wait for, however stalled the
+	terminal is (admissions are only explored while no other section is
+	under way, so nobody else holds the lock). ---- */
+	if "admit" == e.Op {
+		if h := w.attempts[e.A].halves[e.Dir]; h.mDecided && !h.mAccept && "shutdown" == h.mReason && hInAdmission == h.st {
+			w.viol("C01", "refused-not-ended/shutdown", fmt.Sprintf(
+				"%s half of a%d, attempted during shutdown, is still inside the admission section (waiting for the terminal, which holds %d unread notices)%s",
+				h.dir, h.a.id, len(w.och), hist()))
+		}
+	}
+
 	/* ---- C01 / C06: admission verdicts. ---- */
 	if "admit" == e.Op && !mid {
 		h := w.attempts[e.A].halves[e.Dir]
@@ -201,7 +213,10 @@ func (w *World) observe(st *Step, pre map[*half]halfSnap) {
 						h.dir, h.a.kind, h.a.id, h.a.key, h.mReason, hist()))
 				}
 			} else {
-				if hDone != h.st {
+				/* (With a terminal that is not taking notices a refusal
+				waits for its notice to be taken; a refusal during shutdown
+				has none to wait for.) */
+				if hDone != h.st && (roomy || "shutdown" == h.mReason) {
 					w.viol("C01", "refused-not-ended/"+h.mReason, fmt.Sprintf(
 						"refused %s half of a%d did not end at once (state %s)%s",
 						h.dir, h.a.id, halfStateNames[h.st], hist()))
